@@ -88,6 +88,8 @@ def attribute(prop, scen, rej):
 
 def run_model(m, tier, work):
     t0 = time.time()
+    if m.get('tiers') and tier not in m['tiers']:
+        return None
     cfg = m['cfg'][tier] if isinstance(m['cfg'], dict) else m['cfg']
     extra = list(m.get('extra', []))
     rc, out = core.tlc(m['spec'], cfg, work, workers=m.get('workers', 8), extra=extra,
@@ -231,3 +233,52 @@ PROPS['C20'] = dict(
              constants='seeded fault: End emitted twice for a stream',
              expect_violation='Invariant NotStuck is violated'),
     ])
+
+
+# ---- Layer-I design models (spec/GoatImpl.tla) ---------------------------------
+ALL_FIXES = ['D1', 'D4', 'D5', 'D6', 'D7s', 'D7c']
+IMPL_INVS = ('UniqueIds EofOnlyOnOk NoCancelAfterSuccess ResetNotBeforeTrailer ResetNotBeforeTrailerPending '
+             'UnaryOkOnlyWithResp RegistriesEmptyWhenFinished ServeRetMeansHandlersDone')
+
+
+def impl(name, unaries=(), streams=(), workers=1, maxc=1, maxs=1, without=None, cancel=False, readfail=False,
+         stop=False, early=True, expect=None, tiers=None, tlc_workers=8):
+    """a configuration of GoatImpl.tla; `without` names a repaired defect to re-open (the model must then fail)"""
+    fixes = [f for f in ALL_FIXES if f != without]
+    sset = lambda xs: '{' + ', '.join('"%s"' % x for x in xs) + '}'
+    b = lambda v: 'TRUE' if v else 'FALSE'
+    cfg = ('SPECIFICATION Spec\nCONSTANTS\n  Unaries = %s\n  Streams = %s\n  NWorkers = %d\n  MaxC = %d\n  MaxS = %d\n'
+           '  Fixes = %s\n  EnvCancel = %s\n  EnvReadFail = %s\n  EnvStop = %s\n  EarlyReturn = %s\nINVARIANTS %s\n'
+           % (sset(unaries), sset(streams), workers, maxc, maxs, sset(fixes), b(cancel), b(readfail), b(stop), b(early), IMPL_INVS))
+    d = dict(name='GoatImpl ' + name, spec='GoatImpl.tla', cfg=cfg, workers=tlc_workers, heap='12g', timeout=3000,
+             constants='unary calls %s, streams %s, %d worker(s), <=%d client / <=%d handler messages per stream, '
+                       'environment: cancel=%s read-failure=%s stop=%s early-return=%s; %s; deadlock checking on'
+                       % (sset(unaries), sset(streams), workers, maxc, maxs, b(cancel), b(readfail), b(stop), b(early),
+                          'all repaired defects present' if not without else 'defect %s re-opened' % without))
+    if expect:
+        d['expect_violation'] = expect
+        d['exhaustive'] = False
+    if tiers:
+        d['tiers'] = tiers
+    return d
+
+
+M_S1 = impl('S1 (one stream, caller may cancel)', streams=['s1'], cancel=True)
+M_S1M2 = impl('S1m2 (one stream, two messages each way)', streams=['s1'], maxc=2, maxs=2, cancel=True, tiers=['thorough'])
+M_S1U1 = impl('S1U1 (one stream + one unary call, 2 workers)', unaries=['u1'], streams=['s1'], workers=2, cancel=True, tiers=['thorough'], tlc_workers=14)
+M_U2 = impl('U2 (two unary calls, 2 workers)', unaries=['u1', 'u2'], workers=2, early=False)
+M_U2RF = impl('U2rf (two unary calls, client read failure anywhere)', unaries=['u1', 'u2'], workers=2, readfail=True, early=False)
+M_S1RF = impl('S1rf (one stream, cancel and client read failure anywhere)', streams=['s1'], cancel=True, readfail=True, tiers=['thorough'])
+M_S1STOP = impl('S1stop (one stream, Stop anywhere)', streams=['s1'], stop=True)
+M_U2STOP = impl('U2stop (two unary calls, one worker, Stop anywhere)', unaries=['u1', 'u2'], stop=True, early=False)
+B_D1 = impl('Bug_D1', streams=['s1'], early=False, without='D1', expect='Invariant NoCancelAfterSuccess is violated', tlc_workers=2)
+B_D4 = impl('Bug_D4', streams=['s1'], maxc=2, maxs=0, without='D4', expect='Invariant ResetNotBeforeTrailerPending is violated', tlc_workers=2)
+B_D5 = impl('Bug_D5', unaries=['u1'], readfail=True, early=False, without='D5', expect='Deadlock reached', tlc_workers=2)
+B_D6 = impl('Bug_D6', unaries=['u1'], stop=True, early=False, without='D6', expect='Deadlock reached', tlc_workers=2)
+B_D7S = impl('Bug_D7s', streams=['s1'], maxc=2, maxs=0, without='D7s', expect='Deadlock reached', tlc_workers=2)
+B_D7C = impl('Bug_D7c', streams=['s1'], maxc=1, maxs=2, cancel=True, without='D7c', expect='Deadlock reached', tlc_workers=4)
+
+for _p, _ms in {'C01': [M_U2], 'C02': [M_S1, B_D1, M_S1M2], 'C03': [M_S1, B_D4], 'C05': [M_U2, M_S1], 'C06': [M_S1, B_D4],
+                'C07': [M_S1, B_D7C, M_S1M2], 'C09': [M_U2RF, B_D5, M_S1RF], 'C10': [M_S1STOP, M_U2STOP, B_D6],
+                'C11': [M_S1, B_D7S, B_D7C, M_S1U1], 'C14': [M_S1, M_U2]}.items():
+    PROPS[_p]['models'] = list(PROPS[_p].get('models', [])) + _ms
